@@ -21,7 +21,11 @@ class Task(object):
             return int(self.value)
         if self.kind == 'L':
             from MTfit.probability import LnPDF
-            return {'id': self.value, 'ln_pdf': LnPDF(np.matrix([[float(self.value) + 0.5 * k for k in range(self.payload)]]), dV=0.25 + self.value)}
+            res = {'id': self.value, 'ln_pdf': LnPDF(np.matrix([[float(self.value) + 0.5 * k for k in range(self.payload)]]), dV=0.25 + self.value)}
+            if self.value % 2 == 0:
+                # a result may carry several log-PDF objects (e.g. per-event ones): each is transported and rebuilt
+                res['ln_pdf_2'] = LnPDF(np.matrix([[2.0 * self.value - k for k in range(self.payload)]]), dV=0.5 + self.value)
+            return res
         return {'id': self.value, 'blob': 'x' * self.payload}
 
 
@@ -65,6 +69,10 @@ def main():
                     n = op[4]
             ok = isinstance(v, LnPDF) and float(v.dV) == 0.25 + r['id'] and \
                 np.array_equal(np.asarray(v._ln_pdf), np.asarray([[float(r['id']) + 0.5 * k for k in range(n)]]))
+            if ok and r['id'] % 2 == 0:
+                v2 = r.get('ln_pdf_2')
+                ok = isinstance(v2, LnPDF) and float(v2.dV) == 0.5 + r['id'] and \
+                    np.array_equal(np.asarray(v2._ln_pdf), np.asarray([[2.0 * r['id'] - k for k in range(n)]]))
             if not ok:
                 rep['lnpdf_ok'] = False
 
